@@ -448,6 +448,9 @@ def r12_7(ctx):
                     if sym != 'for_expression':
                         continue
                 norm = re.sub(r'yyvsp\[-?\d+\]', 'Q', c)
+                # integer comparisons in one spelling: x >= K  ->  x > K-1,  x < K -> x <= K-1
+                norm = re.sub(r' >= (\d+)\)', lambda m: ' > %d)' % (int(m.group(1)) - 1), norm)
+                norm = re.sub(r' < (\d+)\)', lambda m: ' <= %d)' % (int(m.group(1)) - 1), norm)
                 sites.append((n, norm))
     ctx.require(len(sites) >= 3 or ctx.fixture, 'only %d required-strings guards found' % len(sites))
     counts = {}
